@@ -6,11 +6,14 @@ EmitH == Len(hist) = MaxOps => PrintT(<<"H", ToJson([hist |-> hist])>>)
 \* ---- refresh chains: a prepared commitment that is refreshed (UpdateCommit) SEVERAL times before it is used - by later
 \* preparations and at consumption - each time after the witness moved on.  Only histories that end in a proof whose
 \* commitment went through at least two refreshes are emitted; they need 7 operations, beyond the exhaustive depth.
-RNext == Prepare \/ RevokeOther \/ Update \/ Prove
+RNext == Prepare \/ RevokeOther \/ Update \/ Prove \/ Rollback
 RSpec == Init /\ [][RNext]_vars
 NRef == Cardinality({ i \in 1..Len(hist) : hist[i].op \in {"prepare", "prove"} /\ hist[i].refreshed })
 \* refreshes since the cache was last emptied by a proof
 LastProve == LET P == { i \in 1..(Len(hist) - 1) : hist[i].op = "prove" } IN IF P = {} THEN 0 ELSE CHOOSE i \in P : \A j \in P : j <= i
 ChainLen == Cardinality({ i \in (LastProve + 1)..Len(hist) : hist[i].op \in {"prepare", "prove"} /\ hist[i].refreshed })
+\* rollbacks: histories (RSpec, Rollbacks >= 1) that end in a proof made from a cached commitment with a rollback somewhere before it
+EmitB == (Len(hist) = MaxOps /\ hist[MaxOps].op = "prove" /\ hist[MaxOps].fromcache /\ \E i \in 1..(MaxOps - 1) : hist[i].op = "rollback")
+            => PrintT(<<"H", ToJson([hist |-> hist])>>)
 EmitR == (Len(hist) = MaxOps /\ hist[MaxOps].op = "prove" /\ ChainLen >= 2) => PrintT(<<"H", ToJson([hist |-> hist])>>)
 =============================================================================
